@@ -199,7 +199,7 @@ type opT struct {
 	K string `json:"k"`           // "gen" | "reseed"
 	N int    `json:"n"`           // gen: requested bytes; reseed: entropy bytes
 	A int    `json:"a"`           // additional input bytes; 0 = none
-	E bool   `json:"e,omitempty"` // with a == 0: pass an empty non-nil slice instead of nil
+	Z int    `json:"z,omitempty"` // zero-length flavour of the additional input (a == 0) and of the output buffer (gen, n == 0): 0 nil, 1 []byte{}, 2 buf[:0]
 }
 
 type seqCase struct {
@@ -211,21 +211,25 @@ type seqCase struct {
 	Nonce int
 	Pers  int
 	Seed  uint64 // contents of all byte strings are gen.Fill(Mix(Seed, ...), len)
-	Ops   []opT
+	// memory flavours, see mem_test.go
+	Scribble bool // overwrite every argument (and the output buffer, once compared) right after the call
+	Spare    bool // non-empty arguments and output buffers carry sentinel-filled spare capacity
+	InstZ    int  // zero-length flavour of entropy / nonce / personalisation
+	Ops      []opT
 }
 
 // Key: cases are distinct by mechanism, mode, input lengths and op sequence
 // (not by the filler seed).
 func (c seqCase) Key() string {
 	var sb strings.Builder
-	fmt.Fprintf(&sb, "%s/%v/%v/%s/%d/%d/%d", c.Mech, c.GM, c.Wrap, c.Level, c.Ent, c.Nonce, c.Pers)
+	fmt.Fprintf(&sb, "%s/%v/%v/%s/%d/%d/%d/%v%v%d", c.Mech, c.GM, c.Wrap, c.Level, c.Ent, c.Nonce, c.Pers, c.Scribble, c.Spare, c.InstZ)
 	if len(c.Ops) > 64 {
 		// level sweeps: thousands of identical ops
 		fmt.Fprintf(&sb, "/%d ops/%v", len(c.Ops), c.Ops[len(c.Ops)-8:])
 		return sb.String()
 	}
 	for _, o := range c.Ops {
-		fmt.Fprintf(&sb, "/%s%d.%d.%v", o.K[:1], o.N, o.A, o.E)
+		fmt.Fprintf(&sb, "/%s%d.%d.%d", o.K[:1], o.N, o.A, o.Z)
 	}
 	return sb.String()
 }
@@ -239,11 +243,8 @@ func (c seqCase) opInputs(i int) (entropy, addl []byte) {
 	if o.K == "reseed" {
 		entropy = gen.Fill(gen.Mix(c.Seed, 100+uint64(i), 1), o.N)
 	}
-	switch {
-	case o.A > 0:
+	if o.A > 0 {
 		addl = gen.Fill(gen.Mix(c.Seed, 100+uint64(i), 2), o.A)
-	case o.E:
-		addl = []byte{}
 	}
 	return
 }
@@ -292,9 +293,38 @@ func classifySeq(c seqCase, m mechSpec, iec errClass, exps []expect, r *h.Rec) {
 	}
 	crossings, refusedAfter, reseedSinceRefusal := 0, false, false
 	prevRefused := false
+	afterTooLong, afterRejected := false, false
 	set := map[string]bool{}
+	if c.Scribble {
+		set["scribble-after-every-call"] = true
+	} else {
+		set["no-scribble"] = true
+	}
+	if c.Spare {
+		set["spare-capacity"] = true
+	}
 	for i, o := range c.Ops {
 		e := exps[i]
+		if o.A == 0 {
+			set["addl-"+zNames[o.Z]] = true
+		}
+		if o.K == "gen" && e.ec == eOK {
+			if afterTooLong {
+				set["output-after-too-long-request"] = true
+			}
+			if afterRejected {
+				set["output-after-rejected-reseed"] = true
+			}
+			if o.N == 0 {
+				set["out-"+zNames[(o.Z+1)%3]] = true
+			}
+		}
+		if o.K == "gen" && e.ec == eInvalid {
+			afterTooLong = true
+		}
+		if o.K == "reseed" && e.ec != eOK {
+			afterRejected = true
+		}
 		if o.K == "gen" {
 			switch e.ec {
 			case eReseed:
@@ -377,10 +407,10 @@ func runSeq(c seqCase, m mechSpec, r *h.Rec) error {
 	iec, exps := modelTranscript(c, m, interval)
 	classifySeq(c, m, iec, exps, r)
 
-	ent, nonce, pers := c.instInputs()
-	entC, nonceC, persC := bytes.Clone(ent), bytes.Clone(nonce), bytes.Clone(pers)
+	entD, nonceD, persD := c.instInputs()
+	ent, nonce, pers := mkArg(entD, c.InstZ, c.Spare), mkArg(nonceD, c.InstZ, c.Spare), mkArg(persD, c.InstZ, c.Spare)
 	start := time.Now() // only consulted in GM mode, see clockSkip
-	d, err := newLib(m, c.GM, lvl, c.Wrap, ent, nonce, pers)
+	d, err := newLib(m, c.GM, lvl, c.Wrap, ent.s, nonce.s, pers.s)
 	if err == errNilObject {
 		return err
 	}
@@ -391,8 +421,13 @@ func runSeq(c seqCase, m mechSpec, r *h.Rec) error {
 	if err != nil {
 		return nil
 	}
-	if !bytes.Equal(ent, entC) || !bytes.Equal(nonce, nonceC) || !bytes.Equal(pers, persC) {
-		return fmt.Errorf("instantiate modified its input slices")
+	for _, a := range []*arg{ent, nonce, pers} {
+		if err := a.check("instantiate"); err != nil {
+			return err
+		}
+		if c.Scribble {
+			a.scribble(1)
+		}
 	}
 	// clockSkip: GM mode refuses once 6 s (test level) have passed since the
 	// last (re)seed. A history takes microseconds; if the process was stalled
@@ -411,8 +446,8 @@ func runSeq(c seqCase, m mechSpec, r *h.Rec) error {
 	}
 	for i, o := range c.Ops {
 		e := exps[i]
-		entropy, addl := c.opInputs(i)
-		addlC, entropyC := bytes.Clone(addl), bytes.Clone(entropy)
+		entropyD, addlD := c.opInputs(i)
+		entropy, addl := mkArg(entropyD, o.Z, c.Spare), mkArg(addlD, o.Z, c.Spare)
 		if got := d.NeedReseed(); got != e.need {
 			if got && clockSkip(eReseed) {
 				return nil
@@ -420,12 +455,9 @@ func runSeq(c seqCase, m mechSpec, r *h.Rec) error {
 			return fmt.Errorf("op %d: NeedReseed() = %v, model %v (history %s)", i, got, e.need, describe(c, i))
 		}
 		if o.K == "gen" {
-			can := gen.NewCanary(o.N, 32, 0x3C)
-			buf := can.B()
-			for j := range buf {
-				buf[j] = sentinel
-			}
-			err := d.Generate(buf, addl)
+			ob := mkOut(o.N, (o.Z+1)%3, c.Spare)
+			buf := ob.b
+			err := d.Generate(buf, addl.s)
 			got := libClass(err)
 			if got != e.ec {
 				if clockSkip(got) {
@@ -433,23 +465,22 @@ func runSeq(c seqCase, m mechSpec, r *h.Rec) error {
 				}
 				return fmt.Errorf("op %d: Generate(%d bytes, addl %d): library %v (%v), model %v; history %s", i, o.N, o.A, got, err, e.ec, describe(c, i))
 			}
-			if cerr := can.Check(); cerr != nil {
+			if cerr := ob.check(); cerr != nil {
 				return fmt.Errorf("op %d: Generate(%d bytes): %v", i, o.N, cerr)
 			}
 			if e.ec == eOK {
 				if !bytes.Equal(buf, e.out) {
-					return fmt.Errorf("op %d: Generate(%d bytes, addl %s) = %s, specification says %s; history %s", i, o.N, h.Hex(addl), h.Hex(buf), h.Hex(e.out), describe(c, i))
+					return fmt.Errorf("op %d: Generate(%d bytes, addl %s) = %s, specification says %s; history %s", i, o.N, h.Hex(addlD), h.Hex(buf), h.Hex(e.out), describe(c, i))
 				}
-			} else {
-				for j := range buf {
-					if buf[j] != sentinel {
-						return fmt.Errorf("op %d: Generate refused (%v) but wrote to the output buffer at offset %d: %s; history %s", i, err, j, h.Hex(buf), describe(c, i))
-					}
-				}
+			} else if j, ok := ob.untouched(); !ok {
+				return fmt.Errorf("op %d: Generate refused (%v) but wrote to the output buffer at offset %d: %s; history %s", i, err, j, h.Hex(buf), describe(c, i))
+			}
+			if c.Scribble {
+				ob.scribble(uint64(i))
 			}
 		} else {
 			before := time.Now()
-			err := d.Reseed(entropy, addl)
+			err := d.Reseed(entropy.s, addl.s)
 			if (err != nil) != (e.ec != eOK) {
 				return fmt.Errorf("op %d: Reseed(entropy %d bytes, addl %d): library error %v, model %v (documented minimum %d); history %s", i, o.N, o.A, err, e.ec, m.minEntropyReseed(c.GM), describe(c, i))
 			}
@@ -457,8 +488,13 @@ func runSeq(c seqCase, m mechSpec, r *h.Rec) error {
 				lastSeed = before
 			}
 		}
-		if !bytes.Equal(addl, addlC) || !bytes.Equal(entropy, entropyC) {
-			return fmt.Errorf("op %d: %s modified its input slices", i, o.K)
+		for _, a := range []*arg{entropy, addl} {
+			if err := a.check(fmt.Sprintf("op %d (%s)", i, o.K)); err != nil {
+				return err
+			}
+			if c.Scribble {
+				a.scribble(uint64(i) + 2)
+			}
 		}
 	}
 	return nil
@@ -516,7 +552,7 @@ func drawLen(t *rapid.T, label string, min, pctInvalid int) int {
 
 func requestSizes(m mechSpec, gm bool) (valid, over []int) {
 	mx, out := m.maxRequest(gm), m.outlen()
-	all := []int{0, 1, 15, 16, 17, 31, 32, 33, out - 1, out, out + 1, 2*out + 1, 3 * out, mx - 1, mx, mx + 1, mx + 1, 2*mx + 3}
+	all := []int{0, 1, 15, 16, 17, 31, 32, 33, out - 1, out, out + 1, 2*out + 1, 3 * out, 255, 256, 257, mx - 1, mx, mx + 1, mx + 1, 2*mx + 3}
 	if m.Kind == "hmac" {
 		all = append(all, 65537) // one byte more than SP 800-90A's absolute maximum of 2^19 bits
 	}
@@ -537,15 +573,14 @@ func drawOp(t *rapid.T, m mechSpec, gm bool, pReseed int) opT {
 			o.N = rapid.SampledFrom(valid).Draw(t, "n")
 		} else {
 			// bias to the small sizes so that 30-step histories stay cheap
-			small := uniq(valid, 0, 3*m.outlen()+1)
+			small := uniq(valid, 0, 257)
 			o.N = rapid.SampledFrom(small).Draw(t, "n")
 		}
 	}
 	if rapid.Bool().Draw(t, "hasAddl") {
-		o.A = rapid.SampledFrom([]int{1, 16, 32, 33, 55, 64, 111, 200}).Draw(t, "addl")
-	} else {
-		o.E = rapid.Bool().Draw(t, "emptyNotNil")
+		o.A = rapid.SampledFrom([]int{1, 16, 32, 33, 55, 64, 111, 200, 255, 256, 257}).Draw(t, "addl")
 	}
+	o.Z = rapid.IntRange(0, 2).Draw(t, "zeroFlavour")
 	return o
 }
 
@@ -560,6 +595,9 @@ func genSeq(kind string) func(*rapid.T) seqCase {
 		c.Nonce = drawLen(t, "nonce", m.minNonce(gm), 3)
 		c.Pers = rapid.SampledFrom([]int{0, 0, 1, 16, 32, 55, 100}).Draw(t, "pers")
 		c.Seed = rapid.Uint64().Draw(t, "seed")
+		c.Scribble = !chance(t, "noScribble", 25)
+		c.Spare = rapid.Bool().Draw(t, "spare")
+		c.InstZ = rapid.IntRange(0, 2).Draw(t, "instZero")
 		// mostly long histories (the interval is 8): 30 - small
 		n := 30 - rapid.IntRange(0, 30).Draw(t, "stepsLess")
 		pReseed := rapid.SampledFrom([]int{6, 3, 12, 25}).Draw(t, "pReseed")
@@ -604,9 +642,16 @@ func TestC17_Boundary(t *testing.T) {
 					if bit(1) {
 						a = 40
 					}
-					g := func(n, a int) { c.Ops = append(c.Ops, opT{K: "gen", N: n, A: a}) }
+					c.Scribble, c.Spare, c.InstZ = v%4 != 3, v%2 == 1, v%3
+					g := func(n, a int) { c.Ops = append(c.Ops, opT{K: "gen", N: n, A: a, Z: (len(c.Ops) + v) % 3}) }
 					for i := 0; i < testInterval; i++ {
 						g(sizes[i%len(sizes)], a*(i%2))
+						if i == 2 && bit(3) {
+							g(over[0], a) // a too-long request inside the interval is refused and does not count
+						}
+						if i == 4 && bit(4) {
+							c.Ops = append(c.Ops, opT{K: "reseed", N: 0, A: a, Z: v % 3}) // rejected: must not restart the interval
+						}
 					}
 					// refused calls
 					ra := 0
@@ -619,7 +664,7 @@ func TestC17_Boundary(t *testing.T) {
 						g(0, 0)
 					}
 					if bit(4) {
-						c.Ops = append(c.Ops, opT{K: "reseed", N: m.minEntropyReseed(gm) - 1, A: ra}) // rejected (NIST: empty entropy)
+						c.Ops = append(c.Ops, opT{K: "reseed", N: m.minEntropyReseed(gm) - 1, A: ra, Z: (v + 1) % 3}) // rejected (NIST: empty entropy)
 						g(1, ra)
 					}
 					rsa := 0
@@ -656,8 +701,9 @@ func TestC17_Instantiate(t *testing.T) {
 				}
 				mk := func(e, n, p int) seqCase {
 					return seqCase{Mech: m.Name, GM: gm, Level: "test", Wrap: (e+n)%2 == 1, Ent: e, Nonce: n, Pers: p,
-						Seed: gen.Mix(h.Seed, uint64(e), uint64(n), uint64(p)),
-						Ops:  []opT{{K: "gen", N: m.outlen(), A: 0}, {K: "gen", N: 1, A: 9}}}
+						Seed:     gen.Mix(h.Seed, uint64(e), uint64(n), uint64(p)),
+						Scribble: (e+n)%4 != 0, Spare: e%3 == 0, InstZ: (e + n + p) % 3,
+						Ops: []opT{{K: "gen", N: m.outlen(), A: 0, Z: n % 3}, {K: "gen", N: 1, A: 9}}}
 				}
 				for _, p := range []int{0, 7, 64} {
 					for e := 0; e <= hiE; e++ {
@@ -683,12 +729,12 @@ func TestC17_Levels(t *testing.T) {
 	h.Sweep(t, h.P{Name: "levels"}, func(emit func(seqCase)) {
 		mk := func(m mechSpec, gm bool, level string, interval int) seqCase {
 			c := seqCase{Mech: m.Name, GM: gm, Level: level, Ent: 2 * m.safeEntropy(gm), Nonce: 2*m.minNonce(gm) + 7,
-				Pers: 3, Seed: gen.Mix(h.Seed, uint64(interval), uint64(len(m.Name)))}
+				Pers: 3, Seed: gen.Mix(h.Seed, uint64(interval), uint64(len(m.Name))), Scribble: true, Spare: gm}
 			if !gm {
 				c.Ent, c.Nonce = 32, 16
 			}
 			for i := 0; i < interval; i++ {
-				o := opT{K: "gen", N: 1 + i%5}
+				o := opT{K: "gen", N: 1 + i%5, Z: i % 3}
 				if i%97 == 0 {
 					o.A = 5
 				}
@@ -793,4 +839,46 @@ func TestC17_InputCaps(t *testing.T) {
 		}
 		return nil
 	})
+}
+
+// ---------------------------------------------------------------- where a length or counter grows a byte
+
+// TestC17_ByteBoundaries: input lengths, request sizes and Read sizes at
+// 255/256/257 and 65535/65536/65537 bytes (the 32-bit length fields of
+// Block_Cipher_df, the block counters of Hash_df / Hashgen / CTR and the byte
+// counter of the reader wrapper; the reseed counter passes 255/256 in 'levels'
+// at level two and 65535/65536 at level one in the thorough tier).
+func TestC17_ByteBoundaries(t *testing.T) {
+	lens := []int{255, 256, 257, 65535, 65536, 65537}
+	h.Sweep(t, h.P{Name: "byte-boundaries"}, func(emit func(seqCase)) {
+		for _, m := range mechs {
+			for _, gm := range []bool{false, true} {
+				mx := m.maxRequest(gm)
+				req := func(n int) int {
+					if n > mx {
+						return mx
+					}
+					return n
+				}
+				for i, L := range lens {
+					emit(seqCase{Mech: m.Name, GM: gm, Level: "test", Ent: L, Nonce: L, Pers: L,
+						Seed: gen.Mix(h.Seed, uint64(L), uint64(len(m.Name))), Scribble: i%2 == 0, Spare: i%3 == 0,
+						Ops: []opT{{K: "gen", N: req(256), A: L}, {K: "reseed", N: L, A: L}, {K: "gen", N: req(255), A: L},
+							{K: "gen", N: req(257), A: 0, Z: i % 3}, {K: "reseed", N: L, A: 0, Z: (i + 1) % 3}, {K: "gen", N: req(L), A: 1}}})
+				}
+			}
+		}
+	}, checkSeq)
+	h.Sweep(t, h.P{Name: "prng-byte-boundaries"}, func(emit func(prngCase)) {
+		for i, m := range mechs {
+			for _, gm := range []bool{false, true} {
+				need := m.safeEntropy(gm)
+				if need < 32 {
+					need = 32
+				}
+				emit(prngCase{Mech: m.Name, GM: gm, Strength: need, Pers: 256, Seed: gen.Mix(h.Seed, uint64(i), 0xB0), Reads: lens,
+					FailAt: -1, FailKind: "error", Scribble: i%2 == 0, Spare: i%2 == 1, PersZ: i % 3})
+			}
+		}
+	}, checkPRNG)
 }
